@@ -499,6 +499,10 @@ func (ex *Exec) stringBinop(op token.Token, x, y value) value {
 		var res *Term
 		if len(xb) != len(yb) {
 			res = tc.ff
+		} else if ex.distinctAddresses(xb, yb) {
+			// both strings spell the (symbolic) addresses of two different
+			// objects at the same positions: distinct by construction
+			res = tc.ff
 		} else {
 			res = tc.tt
 			for i := len(xb) - 1; i >= 0; i-- {
@@ -1147,4 +1151,26 @@ func zeroLike(v value) value {
 		return (*ssa.Function)(nil)
 	}
 	return nil
+}
+
+// distinctAddresses reports whether x and y contain, at the same six
+// positions, the address bytes of two different objects (see addressText).
+func (ex *Exec) distinctAddresses(x, y []value) bool {
+	if len(ex.addrOwner) == 0 {
+		return false
+	}
+	n := 0
+	for i := range x {
+		tx, ok1 := x[i].(*Term)
+		ty, ok2 := y[i].(*Term)
+		if !ok1 || !ok2 {
+			continue
+		}
+		ox, okx := ex.addrOwner[tx]
+		oy, oky := ex.addrOwner[ty]
+		if okx && oky && ox != oy {
+			n++
+		}
+	}
+	return n >= 6
 }
